@@ -72,7 +72,7 @@ func clex(s string) ([]ctoken, error) {
 			i++
 		case unicode.IsLetter(rune(c)) || c == '_':
 			j := i
-			for j < len(s) && (unicode.IsLetter(rune(s[j])) || unicode.IsDigit(rune(s[j])) || s[j] == '_') {
+			for j < len(s) && (unicode.IsLetter(rune(s[j])) || unicode.IsDigit(rune(s[j])) || s[j] == '_' || (s[j] == '#' && j+1 < len(s) && s[j+1] >= '0' && s[j+1] <= '9')) {
 				j++
 			}
 			toks = append(toks, ctoken{"id", s[i:j]})
